@@ -611,6 +611,16 @@ package ggql
 //@           decreases len(err) - rangeindex
 
 //@ -- ------------------------------------------------------------------ resolve walk (C01, C06, C08, C09, C10)
+//@ -- recursion measure of the walk (C03: no stack overflow): (depth, rank of the function, structural height).
+//@ -- The heights are uninterpreted; their only axioms say that a wrapper type is higher than its base and that a selection
+//@ -- list is higher than its members and an inline fragment higher than its selection list (types and parsed documents
+//@ -- are finite trees). Nothing is assumed for fragment spreads, which can be cyclic.
+//@ spec typeH(t Type) int
+//@ axiom typeHNonNull(t *NonNull): t != nil ==> 0 <= typeH(t.Base) && typeH(t.Base) < typeH(box(t))
+//@ spec selH(s Selection) int
+//@ spec selsH(ss []Selection) int reads ss[]
+//@ axiom selsHElem(ss []Selection, i int): 0 <= i && i < len(ss) ==> 0 <= selH(ss[i]) && selH(ss[i]) < selsH(ss)
+//@ axiom selHInline(in *Inline): in != nil ==> 0 <= selsH(in.Sels) && selsH(in.Sels) < selH(box(in))
 //@ spec fkey(f *Field) string = ite(len(f.Alias) > 0, f.Alias, f.Name)
 //@ spec skippedSel(sel Selection, vars map[string]interface{}) bool = skippedUpTo(sel.Directives(), vars, len(sel.Directives()))
 //@ spec fdOf(t Type, name string) *FieldDef = ite(is(t, *Object), as(t, *Object).fields.dict[name], ite(is(t, *uuSchema), as(t, *uuSchema).fields.dict[name], ite(is(t, *Schema), as(t, *Schema).fields.dict[name], ite(is(t, *Interface), as(t, *Interface).fields.dict[name], nil))))
@@ -626,6 +636,10 @@ package ggql
 //@   assigns nothing
 
 //@ func (*Root).resolveInline
+//@   decreases{C03} depth
+//@   decreases 3
+//@   decreases selH(box(sel))
+//@   use selHInline(sel)
 //@   requires ptrval(t) != 0
 //@   ensures[errs-fresh]{C06} errsFresh(ea)
 //@   props C08
@@ -638,6 +652,9 @@ package ggql
 //@   ensures[locks-balanced]{C12,C20} held == old(held)
 
 //@ func (*Root).resolveFragRef
+//@   decreases{C03} depth
+//@   decreases 3
+//@   decreases selH(box(sel))
 //@   requires ptrval(t) != 0
 //@   ensures[errs-fresh]{C06} errsFresh(ea)
 //@   props C08
@@ -650,6 +667,10 @@ package ggql
 //@   ensures[locks-balanced]{C12,C20} held == old(held)
 
 //@ func (*Root).resolveSels
+//@   decreases{C03} depth
+//@   decreases 3
+//@   decreases selsH(sels)
+//@   use selsHElem(sels, rangeindex+1)
 //@   requires ptrval(t) != 0
 //@   ensures[errs-fresh]{C06} errsFresh(ea)
 //@   props C01
@@ -819,6 +840,10 @@ package ggql
 //@   ensures[locks-balanced]{C12,C20} held == old(held)
 
 //@ func (*Root).resolve
+//@   decreases{C03} depth
+//@   decreases 0
+//@   decreases typeH(t)
+//@   use typeHNonNull(as(t, *NonNull))
 //@   props C01
 //@   check panic {C03}
 //@   check frame {C11}
@@ -839,6 +864,9 @@ package ggql
 //@ spec oldPathsKept(prev []error, dummy int) bool = forall k int {prev[k]} :: 0 <= k && k < len(prev) && aserr(prev[k]) != nil ==> aserr(prev[k]).Path == athdr(aserr(prev[k]).Path)
 
 //@ func (*Root).resolveList
+//@   decreases{C03} depth
+//@   decreases 1
+//@   decreases 0
 //@   props C01
 //@   check panic {C03}
 //@   check frame {C11}
@@ -874,6 +902,9 @@ package ggql
 //@           decreases cnt - i
 
 //@ func (*Root).resolveField
+//@   decreases{C03} depth
+//@   decreases 1
+//@   decreases 0
 //@   requires ptrval(t) != 0
 //@   props C01
 //@   check panic {C03}
@@ -889,6 +920,9 @@ package ggql
 //@   ensures[locks-balanced]{C12,C20} held == old(held)
 
 //@ func (*Root).resolveFieldSels
+//@   decreases{C03} depth
+//@   decreases 4
+//@   decreases 0
 //@   requires ptrval(t) != 0
 //@   props C01
 //@   check panic {C03}
